@@ -1,6 +1,701 @@
-//! C17: not implemented yet.
-use crate::util::Args;
-pub fn main(_a: &Args) {
-    eprintln!("c17: not implemented");
-    std::process::exit(2);
+//! C17: a partial load equals the full load restricted to what was requested; files of
+//! un-requested parts are not read (corrupting them changes nothing).
+//! Hand-written format-3 UFOs in which every part carries an id that can be read back from the
+//! loaded font; all 64 switch masks x filter shapes; each also with every un-requested file
+//! replaced by garbage.  Cases are printed for the Coq model (coq/Model/Request.v) and judged by
+//! an oracle that only uses the public API.
+use crate::c08::common::{gq, json_str, PNG};
+use crate::util::*;
+use norad::error::{FontLoadError, LayerLoadError};
+use norad::{DataRequest, Font, Plist};
+use std::fmt::Write as _;
+use std::path::{Path, PathBuf};
+
+const GARBAGE: &[u8] = b"\xff\xfe\x00 garbage <<< not a plist, not xml, not utf-8 \xc3";
+
+#[derive(Clone, Debug)]
+pub struct LayerU {
+    pub name: String,
+    pub dir: String,     // where the directory is
+    pub written: String, // how layercontents.plist spells it (normally the same)
+    pub glyphs: Vec<(String, String, u32)>, // name, file, id
+    pub info: u32,                          // 0 = no layerinfo.plist
+}
+#[derive(Clone, Debug)]
+pub struct Ufo {
+    pub meta: u32,
+    pub lib: u8, // 0 absent 1 plain 2 plain+objectLibs 3 only objectLibs 4 objectLibs not a dict 5 not a dict
+    pub lib_id: u32,
+    pub olib_id: u32,
+    pub info: u8, // 0 absent 1 family only 2 family + guideline G1 3 invalid
+    pub info_id: u32,
+    pub groups: u8, // 0 absent 1 valid 2 invalid
+    pub groups_id: u32,
+    pub kerning: u32,  // 0 absent, else id
+    pub features: u32, // 0 absent, else id
+    pub layers: Vec<LayerU>,
+    pub data: Vec<String>,
+    pub images: Vec<String>,
+    pub data_is_file: bool,   // `data` is a plain file (listing fails when requested)
+    pub images_subdir: bool,  // a directory inside images (refused when requested)
+}
+
+const DIRS: [(&str, &str); 6] = [
+    ("background", "glyphs.background"),
+    ("B", "glyphs.B_"),
+    ("sketches", "glyphs.sketches"),
+    ("x y", "glyphs.x y"),
+    ("fg", "glyphs.fg"),
+    ("Zz", "glyphs.Z_z_"),
+];
+const GNAMES: [(&str, &str); 6] = [("a", "a.glif"), ("A", "A_.glif"), ("b", "b.glif"), ("space", "space.glif"), ("a.alt", "a.alt.glif"), ("z", "z.glif")];
+
+pub fn gen_ufo(r: &mut Rng, valid_only: bool) -> Ufo {
+    let mut id = 10u32;
+    let mut next = || {
+        id += 1;
+        id
+    };
+    let mut u = Ufo {
+        meta: next(),
+        lib: *r.pick(&[0u8, 1, 1, 2, 2, 3]),
+        lib_id: next(),
+        olib_id: next(),
+        info: *r.pick(&[0u8, 1, 2, 2]),
+        info_id: next(),
+        groups: *r.pick(&[0u8, 1, 1]),
+        groups_id: next(),
+        kerning: if r.chance(2, 3) { next() } else { 0 },
+        features: if r.chance(2, 3) { next() } else { 0 },
+        layers: vec![],
+        data: vec![],
+        images: vec![],
+        data_is_file: false,
+        images_subdir: false,
+    };
+    if !valid_only {
+        if r.chance(1, 6) {
+            u.lib = *r.pick(&[4u8, 5]);
+        }
+        if r.chance(1, 8) {
+            u.info = 3;
+        }
+        if r.chance(1, 8) {
+            u.groups = 2;
+        }
+        u.data_is_file = r.chance(1, 10);
+        u.images_subdir = r.chance(1, 10);
+    }
+    let dname = if r.chance(1, 3) { "Default Layer" } else { "public.default" };
+    let mut layers = vec![(dname.to_string(), "glyphs".to_string())];
+    let mut pool: Vec<(&str, &str)> = DIRS.to_vec();
+    for _ in 0..r.below(4) {
+        let i = r.below(pool.len() as u64) as usize;
+        let (n, d) = pool.remove(i);
+        layers.push((n.to_string(), d.to_string()));
+    }
+    // the default layer anywhere in the file order
+    let k = r.below(layers.len() as u64) as usize;
+    layers.swap(0, k);
+    for (n, d) in layers {
+        let mut glyphs = vec![];
+        let mut gp: Vec<(&str, &str)> = GNAMES.to_vec();
+        for _ in 0..r.below(4) {
+            let i = r.below(gp.len() as u64) as usize;
+            let (gn, gf) = gp.remove(i);
+            glyphs.push((gn.to_string(), gf.to_string(), next()));
+        }
+        glyphs.sort();
+        let info = if r.chance(1, 2) { next() } else { 0 };
+        u.layers.push(LayerU { name: n, written: d.clone(), dir: d, glyphs, info });
+    }
+    if r.chance(2, 3) && !u.data_is_file {
+        for k in ["a.txt", "d/e.bin", "d/f/g"] {
+            if r.chance(1, 2) {
+                u.data.push(k.to_string());
+            }
+        }
+    }
+    if r.chance(2, 3) {
+        for k in ["i.png", "j.png"] {
+            if r.chance(1, 2) {
+                u.images.push(k.to_string());
+            }
+        }
+    }
+    u
+}
+
+const PL_HEAD: &str = "<?xml version=\"1.0\" encoding=\"UTF-8\"?>\n<!DOCTYPE plist PUBLIC \"-//Apple//DTD PLIST 1.0//EN\" \"http://www.apple.com/DTDs/PropertyList-1.0.dtd\">\n<plist version=\"1.0\">\n";
+fn pl(body: &str) -> String {
+    format!("{}{}</plist>\n", PL_HEAD, body)
+}
+
+/// every file of the UFO: (relative path, bytes, Gallina content term); directories: (path, None)
+pub fn files(u: &Ufo) -> Vec<(String, Option<(Vec<u8>, String)>)> {
+    let mut v: Vec<(String, Option<(Vec<u8>, String)>)> = vec![];
+    let mut f = |p: &str, b: String, g: String| v.push((p.to_string(), Some((b.into_bytes(), g))));
+    f(
+        "metainfo.plist",
+        pl(&format!("<dict>\n<key>creator</key><string>c{}</string>\n<key>formatVersion</key><integer>3</integer>\n</dict>\n", u.meta)),
+        format!("LMeta 3 {}", u.meta),
+    );
+    let olib = format!("<key>public.objectLibs</key><dict><key>G1</key><dict><key>tok</key><integer>{}</integer></dict></dict>\n", u.olib_id);
+    match u.lib {
+        1 => f("lib.plist", pl(&format!("<dict>\n<key>com.tok</key><integer>{}</integer>\n</dict>\n", u.lib_id)), format!("LLib {} ONone", u.lib_id)),
+        2 => f("lib.plist", pl(&format!("<dict>\n<key>com.tok</key><integer>{}</integer>\n{}</dict>\n", u.lib_id, olib)), format!("LLib {} (OGood {})", u.lib_id, u.olib_id)),
+        3 => f("lib.plist", pl(&format!("<dict>\n{}</dict>\n", olib)), format!("LLib 0 (OGood {})", u.olib_id)),
+        4 => f("lib.plist", pl(&format!("<dict>\n<key>com.tok</key><integer>{}</integer>\n<key>public.objectLibs</key><string>no</string>\n</dict>\n", u.lib_id)), format!("LLib {} OBad", u.lib_id)),
+        5 => f("lib.plist", pl("<array><string>x</string></array>\n"), "LLibNotDict".into()),
+        _ => {}
+    }
+    match u.info {
+        1 => f("fontinfo.plist", pl(&format!("<dict>\n<key>familyName</key><string>F{}</string>\n</dict>\n", u.info_id)), format!("LInfo {} true false", u.info_id)),
+        2 => f(
+            "fontinfo.plist",
+            pl(&format!("<dict>\n<key>familyName</key><string>F{}</string>\n<key>guidelines</key><array><dict><key>x</key><integer>1</integer><key>identifier</key><string>G1</string></dict></array>\n</dict>\n", u.info_id)),
+            format!("LInfo {} true true", u.info_id),
+        ),
+        3 => f("fontinfo.plist", pl(&format!("<dict>\n<key>familyName</key><string>F{}</string>\n<key>openTypeOS2Selection</key><array><integer>0</integer></array>\n</dict>\n", u.info_id)), format!("LInfo {} false false", u.info_id)),
+        _ => {}
+    }
+    match u.groups {
+        1 => f("groups.plist", pl(&format!("<dict>\n<key>g{}</key><array><string>a</string></array>\n</dict>\n", u.groups_id)), format!("LGroups {} true", u.groups_id)),
+        2 => f("groups.plist", pl("<dict>\n<key>public.kern1.x</key><array><string>a</string></array>\n<key>public.kern1.y</key><array><string>a</string></array>\n</dict>\n"), format!("LGroups {} false", u.groups_id)),
+        _ => {}
+    }
+    if u.kerning != 0 {
+        f("kerning.plist", pl(&format!("<dict>\n<key>a</key><dict><key>b</key><integer>{}</integer></dict>\n</dict>\n", u.kerning)), format!("LKerning {}", u.kerning));
+    }
+    if u.features != 0 {
+        f("features.fea", format!("# {}\n", u.features), format!("LFeatures {}", u.features));
+    }
+    let mut lc = String::from("<array>\n");
+    let mut lcg = vec![];
+    for l in &u.layers {
+        let _ = write!(lc, "<array><string>{}</string><string>{}</string></array>\n", l.name, l.written);
+        lcg.push(format!("({},{})", gq(&l.name), grel_text(&l.written)));
+    }
+    lc.push_str("</array>\n");
+    f("layercontents.plist", pl(&lc), format!("LLayerContents [{}]", lcg.join(";")));
+    for l in &u.layers {
+        v.push((l.dir.clone(), None));
+        let mut f = |p: String, b: String, g: String| v.push((p, Some((b.into_bytes(), g))));
+        let mut c = String::from("<dict>\n");
+        let mut cg = vec![];
+        for (gn, gf, _) in &l.glyphs {
+            let _ = write!(c, "<key>{}</key><string>{}</string>\n", gn, gf);
+            cg.push(format!("({},[Normal {}])", gq(gn), gq(gf)));
+        }
+        c.push_str("</dict>\n");
+        f(format!("{}/contents.plist", l.dir), pl(&c), format!("LContents [{}]", cg.join(";")));
+        for (gn, gf, id) in &l.glyphs {
+            f(
+                format!("{}/{}", l.dir, gf),
+                format!("<?xml version=\"1.0\" encoding=\"UTF-8\"?>\n<glyph name=\"{}\" format=\"2\">\n<advance width=\"{}\"/>\n</glyph>\n", gn, id),
+                format!("LGlif {}", id),
+            );
+        }
+        if l.info != 0 {
+            f(format!("{}/layerinfo.plist", l.dir), pl(&format!("<dict>\n<key>lib</key><dict><key>tok</key><integer>{}</integer></dict>\n</dict>\n", l.info)), format!("LLayerInfo {}", l.info));
+        }
+    }
+    if u.data_is_file {
+        v.push(("data".into(), Some((b"i am a file".to_vec(), "LBytes 1".into()))));
+    } else if !u.data.is_empty() {
+        v.push(("data".into(), None));
+        let mut dirs = std::collections::BTreeSet::new();
+        for k in &u.data {
+            let parts: Vec<&str> = k.split('/').collect();
+            for j in 1..parts.len() {
+                dirs.insert(format!("data/{}", parts[..j].join("/")));
+            }
+        }
+        for d in dirs {
+            v.push((d, None));
+        }
+        for k in &u.data {
+            v.push((format!("data/{}", k), Some((k.as_bytes().to_vec(), "LBytes 2".into()))));
+        }
+    }
+    if !u.images.is_empty() || u.images_subdir {
+        v.push(("images".into(), None));
+        for k in &u.images {
+            let mut b = PNG.to_vec();
+            b.extend_from_slice(k.as_bytes());
+            v.push((format!("images/{}", k), Some((b, "LBytes 3".into()))));
+        }
+        if u.images_subdir {
+            v.push(("images/sub".into(), None));
+        }
+    }
+    v
+}
+
+pub fn write_ufo(root: &Path, u: &Ufo, garbage: &[String], removed: &[String]) {
+    let _ = std::fs::remove_dir_all(root);
+    std::fs::create_dir_all(root).unwrap();
+    for (p, c) in files(u) {
+        if removed.iter().any(|r| *r == p) {
+            continue;
+        }
+        match c {
+            None => std::fs::create_dir_all(root.join(&p)).unwrap(),
+            Some((b, _)) => {
+                let q = root.join(&p);
+                std::fs::create_dir_all(q.parent().unwrap()).unwrap();
+                if garbage.iter().any(|g| *g == p) {
+                    std::fs::write(q, GARBAGE).unwrap();
+                } else {
+                    std::fs::write(q, b).unwrap();
+                }
+            }
+        }
+    }
+}
+
+/// a path as written in a plist, as Rust's `components()` sees it
+fn grel_text(w: &str) -> String {
+    let mut v = vec![];
+    for c in Path::new(w).components() {
+        v.push(match c {
+            std::path::Component::Normal(s) => format!("Normal {}", gq(&s.to_string_lossy())),
+            std::path::Component::ParentDir => "ParentDir".to_string(),
+            std::path::Component::CurDir => "CurDir".to_string(),
+            _ => "RootDir".to_string(),
+        });
+    }
+    format!("[{}]", v.join(";"))
+}
+/// the class of finding F23: a default layer directory that is not written exactly `glyphs`
+pub fn class_f23(u: &Ufo) -> bool {
+    u.layers.iter().any(|l| Path::new(&l.written).file_name().map(|f| f == "glyphs").unwrap_or(false) && l.written != "glyphs")
+}
+fn gpath(rel: &str) -> String {
+    let mut parts = vec!["\"u\"".to_string()];
+    if !rel.is_empty() {
+        parts.extend(rel.split('/').map(gq));
+    }
+    format!("[{}]", parts.join(";"))
+}
+/// the abstract file system of the pristine UFO at ["u"], as a Gallina entry list
+pub fn gfs(u: &Ufo) -> String {
+    let mut es = vec!["([],Dir)".to_string(), "([\"u\"],Dir)".to_string()];
+    for (p, c) in files(u) {
+        match c {
+            None => es.push(format!("({},Dir)", gpath(&p))),
+            Some((_, g)) => es.push(format!("({},File ({}))", gpath(&p), g)),
+        }
+    }
+    format!("[{}]", es.join(";"))
+}
+
+// ---------------------------------------------------------------- requests
+#[derive(Clone, Debug)]
+pub struct Req {
+    pub mask: u32, // bit0 lib 1 groups 2 kerning 3 features 4 data 5 images
+    pub all: bool,
+    pub default: bool,
+    pub custom: Option<Vec<(String, String)>>, // accepted (name, dir) pairs
+    pub shape: &'static str,
+}
+pub fn mk_request<'a>(q: &'a Req) -> DataRequest<'a> {
+    let m = q.mask;
+    let mut dr = DataRequest::none().lib(m & 1 != 0).groups(m & 2 != 0).kerning(m & 4 != 0).features(m & 8 != 0).data(m & 16 != 0).images(m & 32 != 0);
+    if q.default {
+        dr = dr.default_layer(true);
+    }
+    if let Some(set) = &q.custom {
+        dr = dr.filter_layers(move |n, p| set.iter().any(|(a, b)| a == n && Path::new(b) == p));
+    }
+    if q.all {
+        dr = dr.layers(true);
+    }
+    dr
+}
+fn greq(q: &Req) -> String {
+    let b = |k: u32| g_bool(q.mask & k != 0);
+    let custom = match &q.custom {
+        None => "None".to_string(),
+        Some(s) => format!("(Some [{}])", s.iter().map(|(n, d)| format!("({},{})", gq(n), grel_text(d))).collect::<Vec<_>>().join(";")),
+    };
+    format!("(Request {} {} {} {} {} {} (LFilter {} {} {}))", b(1), b(2), b(4), b(8), b(16), b(32), g_bool(q.all), g_bool(q.default), custom)
+}
+pub fn filter_shapes(u: &Ufo, r: &mut Rng) -> Vec<Req> {
+    let all_pairs: Vec<(String, String)> = u.layers.iter().map(|l| (l.name.clone(), l.written.clone())).collect();
+    let non_default: Vec<(String, String)> = all_pairs.iter().filter(|(_, d)| d != "glyphs").cloned().collect();
+    let mut by_name = vec![];
+    for p in &all_pairs {
+        if r.chance(1, 2) {
+            by_name.push(p.clone());
+        }
+    }
+    vec![
+        Req { mask: 0, all: true, default: false, custom: None, shape: "all" },
+        Req { mask: 0, all: false, default: true, custom: None, shape: "default-only" },
+        Req { mask: 0, all: false, default: false, custom: Some(by_name), shape: "by-name" },
+        Req { mask: 0, all: false, default: false, custom: Some(vec![]), shape: "none-via-predicate" },
+        Req { mask: 0, all: false, default: false, custom: None, shape: "none" },
+        Req { mask: 0, all: false, default: false, custom: Some(all_pairs.clone()), shape: "predicate-true" },
+        Req { mask: 0, all: false, default: true, custom: Some(non_default), shape: "default+predicate" },
+    ]
+}
+fn selected(q: &Req, name: &str, dir: &str) -> bool {
+    q.all || (q.default && dir == "glyphs") || q.custom.as_ref().map(|s| s.iter().any(|(a, b)| a == name && b == dir)).unwrap_or(false)
+}
+
+/// files of un-requested parts (relative paths of plain files)
+pub fn unrequested_files(u: &Ufo, q: &Req) -> Vec<String> {
+    let mut v = vec![];
+    for (p, c) in files(u) {
+        if c.is_none() {
+            continue;
+        }
+        let top = p.split('/').next().unwrap().to_string();
+        let un = match p.as_str() {
+            "lib.plist" => q.mask & 1 == 0,
+            "groups.plist" => q.mask & 2 == 0,
+            "kerning.plist" => q.mask & 4 == 0,
+            "features.fea" => q.mask & 8 == 0,
+            _ => {
+                if top == "data" {
+                    q.mask & 16 == 0
+                } else if top == "images" {
+                    q.mask & 32 == 0
+                } else if let Some(l) = u.layers.iter().find(|l| l.dir == top) {
+                    !selected(q, &l.name, &l.written)
+                } else {
+                    false
+                }
+            }
+        };
+        if un {
+            v.push(p);
+        }
+    }
+    v
+}
+
+// ---------------------------------------------------------------- dumps
+fn int_of(v: Option<&plist::Value>) -> u64 {
+    v.and_then(|x| x.as_unsigned_integer()).unwrap_or(999_999)
+}
+/// a loaded font as the Gallina `lfont` of coq/Model/Request.v; ids are read back from the values
+pub fn dump(f: &Font) -> String {
+    let meta = f.meta.creator.as_ref().and_then(|c| c.strip_prefix('c')).and_then(|s| s.parse::<u64>().ok()).unwrap_or(999_999);
+    let lib_tok = if f.lib.contains_key("com.tok") { int_of(f.lib.get("com.tok")) } else { 0 };
+    let other_keys = f.lib.keys().filter(|k| *k != "com.tok" && *k != "public.objectLibs").count();
+    let ol = match f.lib.get("public.objectLibs") {
+        None => "ONone".to_string(),
+        Some(plist::Value::Dictionary(d)) => format!("(OGood {})", int_of(d.get("G1").and_then(|g| g.as_dictionary()).and_then(|g| g.get("tok")))),
+        Some(_) => "OBad".to_string(),
+    };
+    let lib_tok = if other_keys > 0 { 999_999 } else { lib_tok };
+    let info_tok = match &f.font_info.family_name {
+        Some(s) => s.strip_prefix('F').and_then(|x| x.parse::<u64>().ok()).unwrap_or(999_999),
+        None => 0,
+    };
+    let attached = match f.guidelines().first().and_then(|g| g.lib()) {
+        Some(l) => format!("(Some {})", int_of(l.get("tok"))),
+        None => "None".to_string(),
+    };
+    let groups = match f.groups.keys().next() {
+        Some(k) => k.strip_prefix('g').and_then(|x| x.parse::<u64>().ok()).unwrap_or(999_999),
+        None => 0,
+    };
+    let kerning = match f.kerning.get("a").and_then(|m| m.get("b")) {
+        Some(v) => *v as u64,
+        None => {
+            if f.kerning.is_empty() {
+                0
+            } else {
+                999_999
+            }
+        }
+    };
+    let features = if f.features.is_empty() { 0 } else { f.features.trim().trim_start_matches("# ").parse::<u64>().unwrap_or(999_999) };
+    let mut layers = vec![];
+    for l in f.layers.iter() {
+        let mut gl = vec![];
+        for g in l.iter() {
+            gl.push(format!("({},{})", gq(g.name()), g.width as u64));
+        }
+        let info = if l.lib.is_empty() && l.color.is_none() { 0 } else { int_of(l.lib.get("tok")) };
+        let d = l.path().to_string_lossy().to_string();
+        layers.push(format!("LLayer {} [Normal {}] {} [{}] {}", gq(l.name()), gq(&d), gq(&d), gl.join(";"), info));
+    }
+    let keys = |ks: Vec<&PathBuf>| {
+        let mut v: Vec<String> = ks.iter().map(|k| k.to_string_lossy().to_string()).collect();
+        v.sort();
+        format!("[{}]", v.iter().map(|k| format!("[{}]", k.split('/').map(gq).collect::<Vec<_>>().join(";"))).collect::<Vec<_>>().join(";"))
+    };
+    format!(
+        "(LFont {} ({},{}) ({},{}) {} {} {} [{}] {} {})",
+        meta,
+        lib_tok,
+        ol,
+        info_tok,
+        attached,
+        groups,
+        kerning,
+        features,
+        layers.join(";"),
+        keys(f.data.keys().collect()),
+        keys(f.images.keys().collect())
+    )
+}
+pub fn gerr(e: &FontLoadError) -> (String, String) {
+    let t: String = match e {
+        FontLoadError::AccessUfoDir(_) => "AccessUfoDir".into(),
+        FontLoadError::UfoNotADir => "UfoNotADir".into(),
+        FontLoadError::MissingMetaInfoFile => "MissingMetaInfoFile".into(),
+        FontLoadError::ParsePlist { name, .. } => format!("(ParsePlist {})", gq(name)),
+        FontLoadError::LibFileMustBeDictionary => "LibFileMustBeDictionary".into(),
+        FontLoadError::FontInfo(_) => "FontInfoErr".into(),
+        FontLoadError::InvalidGroups(_) => "InvalidGroupsL".into(),
+        FontLoadError::FeatureFile(_) => "FeatureFileL".into(),
+        FontLoadError::MissingLayerContentsFile => "MissingLayerContentsFile".into(),
+        FontLoadError::MissingDefaultLayer => "MissingDefaultLayer".into(),
+        FontLoadError::DataStore(_) => "DataStoreL".into(),
+        FontLoadError::ImagesStore(_) => "ImagesStoreL".into(),
+        FontLoadError::Layer { name, source, .. } => {
+            let le = match &**source {
+                LayerLoadError::MissingContentsFile => "LMissingContents",
+                LayerLoadError::ParsePlist { name: "contents.plist", .. } => "LParseContents",
+                LayerLoadError::ParsePlist { name: "layerinfo.plist", .. } => "LParseLayerInfo",
+                LayerLoadError::Glyph { .. } => "LGlyph",
+                _ => return ("OOther".into(), "Layer(other)".into()),
+            };
+            format!("(LayerL {} {})", gq(name), le)
+        }
+        _ => return ("OOther".into(), "other".into()),
+    };
+    (format!("(OErr {})", t), t)
+}
+pub fn observe(root: &Path, q: &Req) -> (String, String, Option<Font>) {
+    match catch(|| Font::load_requested_data(root, mk_request(q))) {
+        Err(_) => ("OPanic".into(), "PANIC".into(), None),
+        Ok(Err(e)) => {
+            let (g, s) = gerr(&e);
+            (g, s, None)
+        }
+        Ok(Ok(f)) => (format!("(OOk {})", dump(&f)), "Ok".into(), Some(f)),
+    }
+}
+
+// ---------------------------------------------------------------- oracle
+/// the full load restricted to the request, through the public API only
+pub fn restrict(full: &Font, q: &Req, u: &Ufo) -> Font {
+    // the filter sees the directory as layercontents.plist spells it
+    let written = |name: &str, dir: &str| -> String {
+        u.layers.iter().find(|l| l.name == name).map(|l| l.written.clone()).unwrap_or_else(|| dir.to_string())
+    };
+    let mut f = full.clone();
+    if q.mask & 1 == 0 {
+        f.lib = Plist::new();
+        if let Some(gs) = f.font_info.guidelines.as_mut() {
+            for g in gs.iter_mut() {
+                g.take_lib();
+            }
+        }
+    }
+    if q.mask & 2 == 0 {
+        f.groups = Default::default();
+    }
+    if q.mask & 4 == 0 {
+        f.kerning = Default::default();
+    }
+    if q.mask & 8 == 0 {
+        f.features = String::new();
+    }
+    if q.mask & 16 == 0 {
+        f.data = Default::default();
+    }
+    if q.mask & 32 == 0 {
+        f.images = Default::default();
+    }
+    f.layers.retain(|l| selected(q, l.name(), &written(l.name(), &l.path().to_string_lossy())));
+    let d = f.layers.default_layer();
+    // "default only" means the default layer, however its directory is spelt
+    let default_selected = q.all || q.default || selected(q, d.name(), &written(d.name(), "glyphs"));
+    if !default_selected {
+        let old = d.name().to_string();
+        if old != "public.default" {
+            f.layers.rename_layer(&old, "public.default", false).unwrap();
+        }
+        let d = f.layers.default_layer_mut();
+        d.clear();
+        d.color = None;
+        d.lib = Plist::new();
+    }
+    f
+}
+
+pub struct Out {
+    pub coq: String,   // one `(fs index, request, garbage list, removed list, observation)` per line
+    pub json: String,
+}
+
+fn glist_paths(ps: &[String]) -> String {
+    format!("[{}]", ps.iter().map(|p| gpath(p)).collect::<Vec<_>>().join(";"))
+}
+
+/// `c17 probe <ufo dir>`: full load and default-layer-only load of an existing directory
+fn probe(dir: &Path) {
+    let full = catch(|| Font::load(dir));
+    println!("Font::load: {}", match &full { Ok(Ok(f)) => format!("Ok, layers {:?}", f.layers.iter().map(|l| (l.name().to_string(), l.path().to_path_buf())).collect::<Vec<_>>()), Ok(Err(e)) => format!("Err {:?}", e), Err(_) => "PANIC".into() });
+    let part = catch(|| Font::load_requested_data(dir, DataRequest::none().default_layer(true)));
+    println!("load_requested_data(none().default_layer(true)): {}", match &part { Ok(Ok(f)) => format!("Ok, layers {:?}", f.layers.iter().map(|l| (l.name().to_string(), l.path().to_path_buf())).collect::<Vec<_>>()), Ok(Err(e)) => format!("Err {:?}", e), Err(_) => "PANIC".into() });
+}
+
+pub fn main(a: &Args) {
+    if a.extra.first().map(|s| s.as_str()) == Some("probe") {
+        probe(Path::new(&a.extra[1]));
+        return;
+    }
+    std::fs::create_dir_all(&a.out).unwrap();
+    let (n_ufos, masks): (u64, Vec<u32>) = if a.thorough() { (120, (0..64).collect()) } else { (8, (0..64).collect()) };
+    let replay: Option<(u64, u64)> = a.replay.as_ref().map(|rp| {
+        let t = std::fs::read_to_string(rp).unwrap();
+        let w: Vec<u64> = t.split_whitespace().map(|x| x.parse().unwrap()).collect();
+        (w[0], w[1])
+    });
+    let mut fs_defs = String::new();
+    let mut cases = String::new();
+    let mut json = String::new();
+    let mut case_no = 0u64;
+    let mut row_no = 0u64;
+    // the witness of F23 (corpus/C17/f23_dot_glyphs.txt) runs first, as UFO number n_ufos
+    let order: Vec<u64> = std::iter::once(n_ufos).chain(0..n_ufos).collect();
+    for ui in order {
+        let mut r = Rng::new(a.seed.wrapping_mul(0x9E37_79B9_7F4A_7C15) ^ ui.wrapping_mul(0xD1B5_4A32_D192_ED03) ^ 0x1717);
+        // most UFOs are fully valid (the theorem's premise); some have invalid parts
+        let mut u = gen_ufo(&mut r, ui % 4 != 3 || ui == n_ufos);
+        if ui == n_ufos {
+            for l in u.layers.iter_mut() {
+                if l.dir == "glyphs" {
+                    l.written = "./glyphs".into();
+                }
+            }
+            // and a layer in a nested directory: only the last component becomes Layer::path
+            u.layers.push(LayerU {
+                name: "deep".into(),
+                dir: "nested/glyphs.deep".into(),
+                written: "nested/glyphs.deep".into(),
+                glyphs: vec![("n".into(), "n.glif".into(), 77)],
+                info: 78,
+            });
+        }
+        let root = a.out.join(format!("u17_{}", ui)).join("u");
+        write_ufo(&root, &u, &[], &[]);
+        let full = catch(|| Font::load(&root)).ok().and_then(|x| x.ok());
+        let _ = writeln!(fs_defs, "Definition m{} : lfs := list_to_map {}.", ui, gfs(&u));
+        let shapes = filter_shapes(&u, &mut r);
+        for shape in &shapes {
+            for &mask in &masks {
+                let q = Req { mask, ..shape.clone() };
+                let this = case_no;
+                case_no += 1;
+                if let Some((_, want)) = replay {
+                    if want != this {
+                        continue;
+                    }
+                }
+                // 1. the pristine tree
+                write_ufo(&root, &u, &[], &[]);
+                let (g1, s1, f1) = observe(&root, &q);
+                // 2. every un-requested file replaced by garbage (some removed instead)
+                let un = unrequested_files(&u, &q);
+                let mut garbage = vec![];
+                let mut removed = vec![];
+                for p in &un {
+                    if r.chance(1, 6) {
+                        removed.push(p.clone());
+                    } else {
+                        garbage.push(p.clone());
+                    }
+                }
+                write_ufo(&root, &u, &garbage, &removed);
+                let (g2, s2, f2) = observe(&root, &q);
+                let mut why: Vec<String> = vec![];
+                if let Some(full) = &full {
+                    match &f1 {
+                        None => why.push(format!("the full load succeeds but the partial load fails: {}", s1)),
+                        Some(f1) => {
+                            let want = restrict(full, &q, &u);
+                            if *f1 != want {
+                                why.push("partial load differs from the restricted full load".into());
+                                if f1.layers != want.layers {
+                                    why.push(format!(
+                                        "layers: got {:?} want {:?}",
+                                        f1.layers.iter().map(|l| (l.name().to_string(), l.len())).collect::<Vec<_>>(),
+                                        want.layers.iter().map(|l| (l.name().to_string(), l.len())).collect::<Vec<_>>()
+                                    ));
+                                }
+                            }
+                            if f1.layers.default_layer().path() != Path::new("glyphs") {
+                                why.push("no default layer at the front".into());
+                            }
+                        }
+                    }
+                }
+                match (&f1, &f2) {
+                    (Some(x), Some(y)) => {
+                        if x != y || dump(x) != dump(y) {
+                            why.push("corrupting un-requested files changed the result".into());
+                        }
+                    }
+                    (Some(_), None) => why.push(format!("corrupting un-requested files made the load fail: {}", s2)),
+                    (None, _) => {
+                        if s1 != s2 {
+                            why.push(format!("corrupting un-requested files changed the error: {} vs {}", s1, s2));
+                        }
+                    }
+                }
+                let _ = writeln!(cases, "{}\tpristine\tLCase m{} {} [] [] {}", row_no, ui, greq(&q), g1);
+                let _ = writeln!(cases, "{}\tunrequested-corrupted\tLCase m{} {} {} {} {}", row_no, ui, greq(&q), glist_paths(&garbage), glist_paths(&removed), g2);
+                // 3. sometimes: one REQUESTED file damaged (model and implementation must fail alike)
+                let mut s3 = String::from("-");
+                if r.chance(1, 3) {
+                    let req_files: Vec<String> =
+                        files(&u).into_iter().filter(|(p, c)| c.is_some() && !un.contains(p)).map(|(p, _)| p).collect();
+                    if !req_files.is_empty() {
+                        let victim = r.pick(&req_files).clone();
+                        let (gb, rm) = if r.chance(2, 3) { (vec![victim.clone()], vec![]) } else { (vec![], vec![victim.clone()]) };
+                        write_ufo(&root, &u, &gb, &rm);
+                        let (g3, st3, _) = observe(&root, &q);
+                        s3 = format!("{} ({} {})", st3, if rm.is_empty() { "garbage in" } else { "removed" }, victim);
+                        let _ = writeln!(cases, "{}\trequested-damaged\tLCase m{} {} {} {} {}", row_no, ui, greq(&q), glist_paths(&gb), glist_paths(&rm), g3);
+                    }
+                }
+                row_no += 1;
+                let _ = writeln!(
+                    json,
+                    "{{\"case\":{},\"ufo\":{},\"class_f23\":{},\"mask\":{},\"shape\":{},\"pristine\":{},\"corrupted\":{},\"damaged\":{},\"n_unrequested\":{},\"full_ok\":{},\"oracle_ok\":{},\"why\":{}}}",
+                    this,
+                    ui,
+                    class_f23(&u),
+                    mask,
+                    json_str(shape.shape),
+                    json_str(&s1),
+                    json_str(&s2),
+                    json_str(&s3),
+                    un.len(),
+                    full.is_some(),
+                    why.is_empty(),
+                    serde_json::to_string(&why).unwrap()
+                );
+                if replay.is_some() {
+                    println!("ufo {}: {:?}", ui, u);
+                    println!("request: mask={:06b} (lib,groups,kerning,features,data,images from the right) filter={} {:?}", mask, shape.shape, q.custom);
+                    println!("pristine: {}\nwith un-requested files corrupted ({} garbage, {} removed): {}", s1, garbage.len(), removed.len(), s2);
+                    println!("oracle: {}", if why.is_empty() { "ok".to_string() } else { why.join("; ") });
+                }
+            }
+        }
+        let _ = std::fs::remove_dir_all(a.out.join(format!("u17_{}", ui)));
+    }
+    write_file(&a.out.join("fs.txt"), &fs_defs);
+    write_file(&a.out.join("cases.txt"), &cases);
+    write_file(&a.out.join("oracle.jsonl"), &json);
 }
